@@ -344,6 +344,12 @@ func vcbDrain(h *vcbHandler, info *callbacks.RunInfo, t string, recv func() (any
 	h.run.wg.Add(1)
 	go func() {
 		defer h.run.wg.Done()
+		defer func() {
+			// closing or reading a handler's own copy must never panic
+			if p := recover(); p != nil {
+				h.run.rec.log("crash", map[string]any{"msg": fmt.Sprintf("handler %s: using its stream copy panicked: %v", h.id, p)})
+			}
+		}()
 		defer closeFn()
 		if h.pol == "close" {
 			h.run.rec.log("cbdata", map[string]any{"h": h.id, "name": name, "t": t, "pl": "", "full": false})
@@ -578,10 +584,14 @@ func (r *vcbRun) buildGraph(gid string) (*Graph[string, map[string]any], error) 
 	return g, nil
 }
 
-func (r *vcbRun) runCase() {
+func (r *vcbRun) emitCase() {
 	c := r.c
 	r.rec.log("case", map[string]any{"id": c.ID, "shape": c.Shape, "handlers": c.Handlers, "units": c.Units, "ends": c.Ends,
 		"split": c.Split, "ng": c.NG, "fail": c.Fail, "sched": c.Sched, "mode": c.Mode, "kinds": c.Kinds, "pol": c.Pol, "hb": c.HB})
+}
+
+func (r *vcbRun) runCase() {
+	c := r.c
 	defer r.rec.log("done", map[string]any{})
 	note := func(msg string) { r.rec.log("note", map[string]any{"msg": msg}) }
 
@@ -709,16 +719,31 @@ func TestVerifCb(t *testing.T) {
 			if e := json.Unmarshal(line, c); e != nil {
 				t.Fatalf("bad case line: %v: %s", e, line)
 			}
+			if c.Kinds == nil {
+				c.Kinds = map[string]string{}
+			}
+			if c.Pol == nil {
+				c.Pol = map[string]string{}
+			}
+			if c.HB == nil {
+				c.HB = map[string]bool{}
+			}
 			rec := &vcbRec{}
 			r := &vcbRun{c: c, rec: rec}
 			r.seq = newVcbSeq(c, rec)
+			// a panic inside a library goroutine kills the process: the case line of the running case must be on disk before it runs
+			r.emitCase()
+			w.WriteString(rec.lines[0])
+			w.WriteByte('\n')
+			w.Flush()
 			r.runCase()
 			rec.mu.Lock()
-			for _, l := range rec.lines {
+			for _, l := range rec.lines[1:] {
 				w.WriteString(l)
 				w.WriteByte('\n')
 			}
 			rec.mu.Unlock()
+			w.Flush()
 			n++
 		}
 		if rerr != nil {
